@@ -91,12 +91,22 @@ class Ctx:
     def note(self, message: str):
         self.info.append(message)
 
-    def include(self, other_run, only_rules: set, as_rule: str, desc: str, floor: int = 1):
+    def include(self, other_run, only_rules: set, as_rule: str, desc: str, floor: int = 1,
+                constructs=None):
         """Run another property's rule function and adopt the instances/findings of the
-        rules in *only_rules* under the rule id *as_rule*."""
+        rules in *only_rules* under the rule id *as_rule*.  *constructs*: optional predicate on
+        the construct name restricting which findings are adopted."""
+        if getattr(self, "nested", False):
+            # includes do not nest: the including property adopts direct rules only
+            self.rule(as_rule, desc + " (not evaluated inside an include)", 0)
+            self.skipped_includes = getattr(self, "skipped_includes", set()) | {as_rule}
+            return
         sub = Ctx(self.prop, self.model, self.tier)
+        sub.nested = True
         other_run(sub)
         self.rule(as_rule, desc, floor)
+        for rid in only_rules & getattr(sub, "skipped_includes", set()):
+            self.error(f"included rule {rid} is itself an include and was not evaluated", rule=as_rule)
         for rid in only_rules:
             r = sub.rules.get(rid)
             if r is None:
@@ -105,7 +115,7 @@ class Ctx:
             self.rules[as_rule]["instances"] += r["instances"]
             self.rules[as_rule]["nontrivial"] |= r["nontrivial"]
         for f in sub.findings:
-            if f.rule in only_rules:
+            if f.rule in only_rules and (constructs is None or constructs(f.construct)):
                 self.fail(f.construct, f.where, f.message, f.steps, f.expected, f.observed, rule=as_rule)
         for e in sub.errors:
             if any(f"rule={rid} " in e for rid in only_rules):
